@@ -330,6 +330,8 @@ SPECIAL_KEYS = [
     bytes(32),                                                    # y = 0: x^2 = -1: valid point of order 4
     (2).to_bytes(32, "little"),                                   # y = 2: not on the curve
     bytes([0xff] * 32),
+    bytes.fromhex("8b655970153799af2aeadc9ff1add0ea6c7251d54154cfa92c173a0dd39c1f94"),   # the second generator H of src/util/key.rs
+    bytes.fromhex("5866666666666666666666666666666666666666666666666666666666666666"),   # the base point G
 ]
 
 
